@@ -430,7 +430,7 @@ func init() {
 			return c04run(c, wrap.Replay)
 		}
 		c.Rep.Rule = "real chain histories (god + 8..11 users, all ordinary tx kinds, real embedded contracts through the real VM in 2 of 3 histories (TimeLock / Multisig deploy, fund, transfer and push to the contract itself / the caller / another contract / users / fresh / zero address with part / all / more than the balance, strangers, locked, unknown methods, paid calls, terminate), conflict bundles, flips, validation ceremonies on a shrunk timeline => several validation-finishing blocks, injected empty blocks, failed validations, consensus v12 and v9); after every block: full iteration of the real ledger before/after, the block's txs alone through processTxs on a check state; distinct = blocks (seed/height)"
-		nh := c.Scale(24, 400)
+		nh := c.Scale(18, 400)
 		for i := 0; i < nh; i++ {
 			cs := c04case{Seed: c.Seed*1000 + int64(i), Blocks: 240, Users: 8 + i%4, V9: i%4 == 3, Participate: 0.75, Contracts: i%3 != 2, Seasoned: i%6 != 5}
 			if i%4 == 1 {
